@@ -4,9 +4,9 @@
 # (same sources as /verif/sim, path dependency on /tmp/wt_eval). Writes /tmp/seed_logs/<name>.json.
 set -u
 PROP="$1"; DIR="$2"; NAME="$3"; shift 3; EXTRA="$*"
-WT=/tmp/wt_eval; LOG=/tmp/seed_logs/$NAME.log; : > "$LOG"
+WT="${SEED_WT:-/tmp/wt_eval}"; SIMDIR="${SEED_SIM:-/tmp/seedsim}"; LOG=/tmp/seed_logs/$NAME.log; : > "$LOG"
 # snapshot of the simulator sources, so that /verif/sim can be edited while this runs
-[ -n "${SEED_EVAL_NO_SYNC:-}" ] || rsync -a --delete /verif/sim/src/ /tmp/seedsim/src/
+[ -n "${SEED_EVAL_NO_SYNC:-}" ] || rsync -a --delete /verif/sim/src/ $SIMDIR/src/
 cd $WT && git checkout -q -- . && rm -f tests/seed_demo.rs
 git apply "$DIR/patch.diff" >>"$LOG" 2>&1 || { echo "{\"name\":\"$NAME\",\"error\":\"patch does not apply\"}" > /tmp/seed_logs/$NAME.json; exit 1; }
 echo "== suite with patch" >>"$LOG"
@@ -18,12 +18,12 @@ cp "$DIR/demo.rs" tests/seed_demo.rs
 cargo test --offline --all-features $EXTRA --test seed_demo >>"$LOG.demo_with" 2>&1; demo_with_rc=$?
 rm -f tests/seed_demo.rs
 echo "== cbsim checks with patch" >>"$LOG"
-( cd /tmp/seedsim && cargo build --offline --release >>"$LOG.build" 2>&1 ) || { echo "build failed" >>"$LOG"; }
+( cd $SIMDIR && cargo build --offline --release >>"$LOG.build" 2>&1 ) || { echo "build failed" >>"$LOG"; }
 ROOT=/tmp/seed_logs/root_$NAME; rm -rf $ROOT; mkdir -p $ROOT; cp /verif/known_findings.json $ROOT/
 declare -A RES
 PROPS="C08 C12 C16 C18 C19"
 for p in $PROPS; do
-  out=$(/tmp/seedsim/target/release/cbsim run $p --tier quick --root $ROOT 2>&1); rc=$?
+  out=$($SIMDIR/target/release/cbsim run $p --tier quick --root $ROOT 2>&1); rc=$?
   echo "$out" | grep -E "VIOLATION|KNOWN|violations=" | cut -c1-400 | head -6 >>"$LOG"
   RES[$p]="$rc:$(echo "$out" | grep -c '^VIOLATION')"
 done
@@ -31,8 +31,8 @@ done
 c11="skipped"
 caught=0; for p in $PROPS; do [ "${RES[$p]%%:*}" = "1" ] && caught=1; done
 if [ "$PROP" = "C11" ] || [ $caught = 0 ]; then
-  ( cd /tmp/seedsim && cargo build --offline --profile dbg >>"$LOG.build" 2>&1 )
-  out=$(CBSIM_DBG_BIN=/tmp/seedsim/target/dbg/cbsim /tmp/seedsim/target/release/cbsim run C11 --tier quick --root $ROOT 2>&1); rc=$?
+  ( cd $SIMDIR && cargo build --offline --profile dbg >>"$LOG.build" 2>&1 )
+  out=$(CBSIM_DBG_BIN=$SIMDIR/target/dbg/cbsim $SIMDIR/target/release/cbsim run C11 --tier quick --root $ROOT 2>&1); rc=$?
   echo "$out" | grep -E "VIOLATION|KNOWN|violations=" | cut -c1-400 | head -6 >>"$LOG"
   c11="$rc:$(echo "$out" | grep -c '^VIOLATION')"
 fi
